@@ -71,6 +71,9 @@ def _callers(prog):
                 cal = prog.callee(x, f)
                 if cal is not None:
                     out.setdefault(strip_tmpl(cal.get('qn', '')), set()).add(me)
+    # helpers that jpv/normalise.py substituted into their callers are no longer called, but they were
+    for (caller, helper, _) in getattr(prog, 'dissolved', []) or []:
+        out.setdefault(strip_tmpl(helper), set()).add(strip_tmpl(caller))
     return out
 
 
